@@ -398,7 +398,7 @@ SEQ_METHODS = {"append", "appendleft", "pop", "popleft", "remove", "clear", "ext
                "copy", "sort", "count", "reverse"}
 MAP_METHODS = {"get", "pop", "setdefault", "keys", "values", "items", "update", "clear", "copy",
                "move_to_end", "popitem"}
-SET_METHODS = {"add", "discard", "remove", "clear", "copy", "update"}
+SET_METHODS = {"add", "discard", "remove", "clear", "copy", "update", "isdisjoint"}
 STR_METHODS = {"lower", "upper", "strip", "split", "join", "startswith", "endswith", "format", "replace",
                "encode", "lstrip", "rstrip", "isdigit", "splitlines", "find", "count"}
 
@@ -1337,7 +1337,47 @@ def gh_lemma_pigeonhole(I, args, kw):
     return VNone()
 
 
+def gh_choose(I, args, kw):
+    """ghost only: choose('<type>', lambda x: P(x)) -> a value w of that type with  (exists x. P(x)) ==> P(w)
+    (Hilbert choice: a conservative definition, it constrains nothing but the fresh w)."""
+    t = I.ver.types.parse(const_of(args[0]))
+    pred = args[1]
+    w = I.fresh_value(t, "chosen")
+    x = t.wrap(z3.Const(I.path.fresh_name("ch_x"), t.sort()))
+    saved = I.spec
+    I.spec = True
+    try:
+        pw = I.truth(I.call(pred, [w], {}))
+        px = I.truth(I.call(pred, [x], {}))
+    finally:
+        I.spec = saved
+    I.path.assume(z3.ForAll([unwrap(x, t)], z3.Implies(px, pw)))
+    return w
+
+
+def gh_map_set_all(I, args, kw):
+    """ghost only: map_set_all(m, keys, v):  for k in keys: m[k] = v   (keys: a set)"""
+    m, ks, v = args
+    if not isinstance(m, VMap) or m.order is not None:
+        raise Unsupported("map_set_all on %s" % type(m).__name__)
+    dom2, card2, _ = _as_set_dom(I, ks, m.kt)
+    k = z3.Const(I.path.fresh_name("msa_k"), m.kt.sort())
+    ve = unwrap(v, m.vt)
+    nd = I.path.fresh("msa_dom", z3.ArraySort(m.kt.sort(), z3.BoolSort()))
+    nv = I.path.fresh("msa_val", z3.ArraySort(m.kt.sort(), m.vt.sort()))
+    I.path.assume(z3.ForAll([k], z3.Select(nd, k) == z3.Or(z3.Select(m.dom, k), z3.Select(dom2, k)),
+                            patterns=[z3.Select(nd, k)]))
+    I.path.assume(z3.ForAll([k], z3.Select(nv, k) == z3.If(z3.Select(dom2, k), ve, z3.Select(m.val, k)),
+                            patterns=[z3.Select(nv, k)]))
+    nc = I.path.fresh("msa_card", z3.IntSort())
+    I.path.assume(z3.And(nc >= m.card, nc >= card2, nc <= m.card + card2))
+    m.dom, m.val, m.card = nd, nv, nc
+    m.writeback()
+    return VNone()
+
+
 BUILTIN_FUNCS = {
+    "choose": gh_choose, "map_set_all": gh_map_set_all,
     "lemma_pigeonhole": gh_lemma_pigeonhole, "int_parses": sp_int_parses, "int_value": sp_int_value,
     "len": bi_len, "int": bi_int, "float": bi_float, "bool": bi_bool, "str": bi_str, "abs": bi_abs,
     "min": bi_min, "max": bi_max, "isinstance": bi_isinstance, "hasattr": bi_hasattr, "getattr": bi_getattr,
@@ -1638,9 +1678,42 @@ def dictrec_method(I, d, name, args, kw):
     raise Unsupported("literal dict .%s" % name)
 
 
+def _as_set_dom(I, other, kt):
+    """membership predicate (z3 array kt -> Bool) and cardinality bound of an iterable used as a set operand"""
+    other = I.force(other)
+    if isinstance(other, (VEmptySet, VEmptyList)):
+        return z3.K(kt.sort(), z3.BoolVal(False)), z3.IntVal(0), True
+    if isinstance(other, VSet) and other.kt == kt:
+        return other.dom, other.card, True
+    if isinstance(other, VSeq) and other.et == kt:
+        st = bi_set(I, [other], {})
+        return st.dom, st.card, False
+    raise Unsupported("set operation with %s operand" % type(other).__name__)
+
+
 def set_method(I, s, name, args, kw):
+    if name == "isdisjoint":
+        if isinstance(s, VEmptySet):
+            return VBool(True)
+        dom2, _, _ = _as_set_dom(I, args[0], s.kt)
+        k = z3.Const(I.path.fresh_name("dj_k"), s.kt.sort())
+        return VBool(z3.Not(z3.Exists([k], z3.And(z3.Select(s.dom, k), z3.Select(dom2, k)))))
     if isinstance(s, VEmptySet):
         raise Unsupported("mutation of set() of unknown element type; declare the local's type")
+    if name == "update":
+        # s |= other: union; the cardinality is only bounded (exact when the operands are disjoint)
+        dom2, card2, _ = _as_set_dom(I, args[0], s.kt)
+        k = z3.Const(I.path.fresh_name("un_k"), s.kt.sort())
+        old_dom, old_card = s.dom, s.card
+        nd = I.path.fresh("union_dom", z3.ArraySort(s.kt.sort(), z3.BoolSort()))
+        I.path.assume(z3.ForAll([k], z3.Select(nd, k) == z3.Or(z3.Select(old_dom, k), z3.Select(dom2, k)),
+                                patterns=[z3.Select(nd, k)]))
+        s.dom = nd
+        s.card = I.path.fresh("union_card", z3.IntSort())
+        I.path.assume(z3.And(s.card >= old_card, s.card >= card2, s.card <= old_card + card2))
+        I.path.assume((s.card == 0) == z3.And(old_card == 0, card2 == 0))
+        s.writeback()
+        return VNone()
     if name == "add":
         set_add(I, s, unwrap(I.force(args[0]), s.kt))
         return VNone()
@@ -1848,7 +1921,11 @@ def dict_comprehension(I, n, env):
 
 
 def set_comprehension(I, n, env):
-    raise Unsupported("set comprehension")
+    """{elt for x in xs if c} == set([elt for x in xs if c])"""
+    lst = comprehension(I, n, env)
+    if isinstance(lst, VEmptyList):
+        return VEmptySet()
+    return bi_set(I, [lst], {})
 
 
 def assign_spec(self, t, v, env):
